@@ -3,7 +3,7 @@ from harness.core import Target
 from harness import tie
 
 PID = "C52"
-TIE_IMPORTS = "From LunaModel Require Import I2cInit I2cInit_proofs.\n"
+TIE_IMPORTS = "From LunaLib Require Import ReachPre.\nFrom LunaModel Require Import I2cInit I2cInit_proofs.\n"
 
 IN_NAMES = ["start", "stop", "write", "read", "ack_i", "data_i", "scl_in", "sda_in"]
 
@@ -26,10 +26,10 @@ def mk(period, stretch, big):
 
 def targets(tier):
     small = [(4, True), (4, False)]
-    big = [(8, True), (16, True), (20, False), (22, True)]
+    big = [(8, True), (22, False)]
     if tier != "quick":
         small += [(8, True)]
-        big = [(8, False), (16, True), (16, False), (20, True), (20, False), (22, True), (64, True), (300, True), (300, False)]
+        big = [(8, False), (16, True), (20, False), (22, True), (64, True), (300, False)]
     return [mk(p, s, False) for p, s in small] + [mk(p, s, True) for p, s in big]
 
 
@@ -106,8 +106,11 @@ def closed_loop(target, rng, n_traces, cycles):
 
 def traces(target, rng, tier):
     q = target.params["q"]
-    n = 12 if tier == "quick" else 48
-    cycles = min(4000, 45 * 4 * (q + 4) * (3 if tier == "quick" else 6))
+    if tier == "quick":
+        n = 7; cycles = min(900, 36 * (q + 4) * 4)
+    else:
+        cycles = min(6000, 36 * (q + 4) * 6)
+        n = max(4, min(16, 15000 // cycles))
     return closed_loop(target, rng, n, cycles)
 
 
@@ -115,12 +118,91 @@ def model(t):
     return f"i2c_step {t.params['q']} {'true' if t.params['stretch'] else 'false'}"
 
 
+D_W = 0xA6      # data_i in the R obligations
+P_R = 0x59      # octet the target sends during reads in the R obligations
+
+
+def rlock_pre(name, target, *, env, alphabet, fuel, describe):
+    """R lock-step obligation like tie.rlock / tie_explicit.rlock_alpha, but the environment filter is evaluated
+    BEFORE the netlist is stepped (coq/Lib/ReachPre.v: closed_pre implies Machine.closed), because the I2C
+    environment rejects most alphabet symbols in most states (requests only while idle)."""
+    G = target.modname
+    St, mstep, enc, dec, wf = "i2c_state", model(target), "i2c_enc", "i2c_dec", "i2c_wf"
+    q, s = target.params["q"], "true" if target.params["stretch"] else "false"
+    defs = f"""
+Module {name}.
+  Definition step := {G}.step.
+  Definition env := {env}.
+  Definition mon := rl_mon ({St}) ({mstep}) ({enc}) ({dec}) env.
+  Definition pre := envN ({St}) ({dec}) env.
+  Definition alpha : list N := Eval vm_compute in ({alphabet}).
+  Definition m0 := ({enc}) i2c_init.
+  Definition bfs := Eval vm_compute in explore_pre step pre mon alpha {fuel} {G}.init m0.
+  Definition ob_cex := Eval vm_compute in cex bfs.
+  Definition ob_left := Eval vm_compute in length (front bfs).
+  Definition ob_states := Eval vm_compute in length (allst bfs).
+End {name}.
+"""
+    thms = f"""
+Module {name}_T.
+  Import {name}.
+  Definition L := Eval vm_compute in allst bfs.
+  Lemma L_closed_pre : closed_pre step pre mon alpha L = true.
+  Proof. vm_compute. reflexivity. Qed.
+  Lemma L_closed : closed step mon alpha L = true.
+  Proof.
+    apply (closed_pre_closed step pre mon alpha).
+    - intros m i o H. apply rl_mon_pre_sound. exact H.
+    - exact L_closed_pre.
+  Qed.
+  Lemma init_in : pmem {G}.init m0 (of_list L) = true.
+  Proof. vm_compute. reflexivity. Qed.
+  Theorem tie : forall tr, Forall (fun i => In i alpha) tr ->
+    env_ok ({St}) ({mstep}) env i2c_init tr = true ->
+    run {G}.step {G}.init tr = run ({mstep}) i2c_init tr.
+  Proof.
+    intros tr H HE.
+    apply (R_lockstep step ({St}) ({mstep}) ({enc}) ({dec}) ({wf}) env i2c_dec_enc (i2c_wf_step {q} {s}) alpha L).
+    - exact L_closed.
+    - exact init_in.
+    - exact i2c_wf_init.
+    - exact H.
+    - exact HE.
+  Qed.
+End {name}_T.
+"""
+    return tie.Obligation(name, "R-lockstep(explicit alphabet, pre-filtered environment)", target, defs, thms,
+                          [f"{name}_T.tie"], describe, mon_expr=f"{name}.mon", m0_expr=f"{name}.m0")
+
+
+def envs(t, tier):
+    """(tag, env expression, description)"""
+    tgt = ("an open-drain bus whose target only ever holds SCL low (clock stretching of any length at any SCL-low moment) and "
+           "drives SDA freely, except that during read data bits it sends 0x%02X" % P_R)
+    legal = ("bus", f"i2c_env {D_W} (msb8 {P_R}) true true true", "start/stop/write/read requests against " + tgt)
+    wonly = ("busw", f"i2c_env {D_W} (msb8 {P_R}) true false true", "start/stop/write requests against " + tgt)
+    ronly = ("busr", f"i2c_env {D_W} (msb8 {P_R}) false true true", "start/stop/read requests against " + tgt)
+    free = ("freescl", f"i2c_env {D_W} (msb8 {P_R}) true true false",
+            "start/stop/write/read requests against an open-drain bus whose target drives SCL and SDA low at any time (also "
+            "pulls a high SCL low), except that during read data bits it sends 0x%02X" % P_R)
+    if tier == "quick":
+        return [wonly, ronly]
+    return [legal, free] if (t.params["period"] == 4 and t.params["stretch"]) else [legal]
+
+
 def obligations(targets, tier):
     obs = []
     for t in targets:
+        desc = f"I2CInitiator(period_cyc={t.params['period']}, clk_stretch={t.params['stretch']})"
+        if not t.big:
+            for tag, env, edesc in envs(t, tier):
+                obs.append(rlock_pre(
+                    f"ob_{t.name}_{tag}", t, env=env, alphabet=f"i2c_alphabet i2c_reqs {D_W}", fuel=100000,
+                    describe=f"{desc} == model in lock step (every port, every cycle) on all traces of requests (any order, only "
+                             f"while the FSM is idle, also several at once; data_i = 0x{D_W:02X}, ack_i free): {edesc}"))
         obs.append(tie.corr(f"corr_{t.name}", t, mstep=model(t), m0="i2c_init",
-                            describe=f"I2CInitiator(period_cyc={t.params['period']}, clk_stretch={t.params['stretch']}) model vs "
-                                     f"simulator: closed-loop controller/target traces with random data, stretching, wild targets"))
+                            describe=f"{desc} model vs simulator: closed-loop controller/target traces with random data, "
+                                     f"clock stretching, requests while busy, wild and non-open-drain pad behaviour"))
     return obs
 
 
@@ -132,7 +214,47 @@ def tie_theorem_names(targets, tier):
     return []
 
 
-ASSUMPTIONS = []
-LEVEL_TEXT = "in progress"
-LEVEL_NOTE = "in progress"
-TECHNIQUE = "in progress"
+ASSUMPTIONS = [
+    "scope: I2CInitiator with its I2CBusDriver on an I2CBus record (scl and sda both with i/o/oe, as in tests/test_i2c.py); "
+    "I2CRegisterInterface is not part of this property",
+    "model parameters: q = period_cyc // 4 (timer reload) and clk_stretch; the theorems need no lower bound on q, but with "
+    "period_cyc < 4 (q = 0) the strobe is permanently high and no SclH step ever completes (model and code alike)",
+    "model theorems quantify over ALL input traces: requests at any time (the FSM accepts them exactly while in IDLE, "
+    "including the one IDLE cycle in which busy is still 1), arbitrary pads.scl.i / pads.sda.i values every cycle",
+    "reading of 'SCL is high' for the SDA clause: the initiator's own SCL output is released before and after the step "
+    "(conservative: if it holds SCL low the line is low whatever the target does)",
+    "reading of 'samples while SCL is high': the FSM takes the sample in a non-strobe cycle with its SCL output released "
+    "and, for clk_stretch=True, the synchronised SCL input high (then the synchronised SDA value stems from the same "
+    "instant at which the line was seen high). With clk_stretch=False the code does not look at SCL at all: the sample is "
+    "taken one cycle after SCL is released and, because of the two-stage synchroniser, is the SDA pad value from the cycle "
+    "BEFORE the SCL pad rises -- correct for any target that respects the I2C data set-up time, stated here, not hidden",
+    "ghost record (g_rises, g_samples, g_data, g_ack) only observes the model; it is reset when a request is accepted",
+    "R obligations: period_cyc = 4 (both clk_stretch settings; thorough also period_cyc = 8), data_i = 0xA6, read octet "
+    "0x59, environment classes listed in obligation_list; other data values, periods 8..300 and mixed/wild behaviours "
+    "are covered by correspondence runs against Amaranth's simulator",
+    "liveness (an operation finishes if the target eventually releases SCL) is not stated",
+]
+LEVEL_TEXT = (
+    "Machine-checked proof about the parametric model (every q = period_cyc//4, both clk_stretch settings, every input trace incl. "
+    "arbitrary target SCL/SDA behaviour): C52_sda_discipline (the initiator's SDA output changes only while it holds SCL low, or -- "
+    "with SCL released before and after -- as the falling edge of a START / rising edge of a STOP sequence), C52_group_entry (those "
+    "sequences are entered only by an accepted start/stop request; priority start>stop>write>read), C52_write_correct (whenever idle "
+    "after a write: exactly nine SCL pulses, SDA carried data_i MSB first at the first eight rising edges and was released at the "
+    "ninth, one sample taken, ack_o = its complement), C52_read_correct (nine pulses, SDA released for eight, driven to not ack_i at "
+    "the ninth, eight samples, data_o = samples MSB first), C52_samples_scl_high + C52_registers_change_only_by_sampling (samples are "
+    "taken only with SCL released and, with clk_stretch, seen high), C52_stretch_holds (while SCL is released but held low the FSM, "
+    "timer, outputs and registers are frozen, for any duration), C52_busy_low_only_idle + C52_idle_accepts. Tie: for period_cyc = 4 "
+    "(and 8 in the thorough tier) the netlist regenerated from /repo is proved equal to the model in lock step on every port for all "
+    "request sequences against every clock-stretching open-drain target of the listed environment class (certified product "
+    "reachability); correspondence with Amaranth's simulator at periods 4..300.")
+LEVEL_NOTE = (
+    "Trusted: Coq kernel + vm_compute, Amaranth elaboration, nir2coq.py/Netlist.v (validated each run against pysim), the reading of "
+    "the property recorded in ASSUMPTIONS. The protocol theorems are statements about the hand model (internal FSM position and "
+    "ghost history); the code is tied to the model by lock-step equality of all ports, which is a theorem only for the R "
+    "configurations and environment classes (fixed data_i / read octet; requests only while idle), elsewhere a differential test. "
+    "New library file coq/Lib/ReachPre.v (environment filter evaluated before stepping; proved to imply Machine.closed). "
+    "Not claimed: liveness; that a START/STOP is always electrically produced (e.g. a start requested while a target illegally "
+    "holds SCL low and sda_o is already 0 completes without an SDA edge); clk_stretch=False samples the pre-rise SDA value (see ASSUMPTIONS).")
+TECHNIQUE = ("Rocq proof: inductive invariants over all traces of a parametric FSM model (safety invariant + ghost-history invariant for "
+             "write/read), certified product-reachability lock-step against the regenerated netlist under an explicit environment "
+             "class, differential runs against Amaranth's simulator with a closed-loop bus/target generator")
